@@ -100,9 +100,9 @@ K_GLUE = [dict(name='bounded_glue_fwd_sse2_n2_h4', bounded=True, bound='needle=2
 K_GLUE_R = [dict(name='bounded_glue_rev_n3_h6', bounded=True, bound='needle<=3, haystack<=6', tier='thorough', timeout=1500)]
 K_TWPRE = [dict(name='bounded_twoway_prefilter_fwd_n3_h7', bounded=True, bound='needle 2..=3, haystack<=7, Two-Way with the portable prefilter', tier='thorough', timeout=14400)]
 
-def others(select, mods=None):
-    """the same selection on the builds for the other targets (text the x86_64 host never compiles)"""
-    return [dict(build=b, modules=None, select=select) for b in ('aarch64', 'wasm32', 'other')]
+def others(select, mods=None, with32=True):
+    """the same selection on the builds for the other targets (text the x86_64 host never compiles) and for 32-bit usize"""
+    return [dict(build=b, modules=None, select=select) for b in (('aarch64', 'wasm32', 'other', 'other32') if with32 else ('aarch64', 'wasm32', 'other'))]
 
 
 PROPS = {
@@ -113,13 +113,13 @@ PROPS = {
                 builds=[dict(build='main', modules=MAIN_MODS_MEMCHR, select=SEL_C02)] + others(SEL_C02),
                 assumptions=[A_DISP, A_LEAF]),
     'C03': dict(explore=True, level='proof', kinds=FUNCTIONAL, kani=K_LEAF + K_TW_F + K_RK_F + K_GLUE + K_TWPRE,
-                builds=[dict(build='main', modules=MAIN_MODS_SUB + MAIN_MODS_MEMCHR, select=SEL_MM_F + SEL_SUB_F)],
+                builds=[dict(build='main', modules=MAIN_MODS_SUB + MAIN_MODS_MEMCHR, select=SEL_MM_F + SEL_SUB_F)] + others(SEL_MM_F + SEL_SUB_F),
                 explanation='memmem::find, Finder::{new,find}, FinderBuilder, Searcher::{new,twoway,find} (fn pointers defunctionalised, X15), '
                             'every searcher_kind_* and every engine (one-byte = memchr; packed-pair find; Rabin-Karp incl. constructors; '
                             'Two-Way incl. completeness) are discharged by Verus in ONE unit: the postcondition of memmem::find is the property',
                 assumptions=[A_GLUE, A_TW, A_CTOR, A_LEAF, A_DISP]),
     'C04': dict(explore=True, level='proof', kinds=FUNCTIONAL, kani=K_TW_R + K_RK_R + K_GLUE_R,
-                builds=[dict(build='main', modules=MAIN_MODS_SUB + MAIN_MODS_MEMCHR, select=SEL_MM_R + SEL_SUB_R)],
+                builds=[dict(build='main', modules=MAIN_MODS_SUB + MAIN_MODS_MEMCHR, select=SEL_MM_R + SEL_SUB_R)] + others(SEL_MM_R + SEL_SUB_R),
                 explanation='memmem::rfind, FinderRev::{new,rfind} and SearcherRev::{new,rfind} (a plain enum, no fn pointer) are proved against '
                             'the real reverse engines (Rabin-Karp reverse, Two-Way reverse incl. completeness, memrchr), all proved in this run',
                 assumptions=[A_TW, A_CTOR, A_DISP, A_LEAF]),
@@ -141,29 +141,30 @@ PROPS = {
     'C08': dict(explore=True, level='proof', kinds=FUNCTIONAL, kani=K_TW_F + K_TW_R,
                 builds=[dict(build='main', modules=MAIN_MODS_SUB + MAIN_MODS_MEMCHR,
                              select=[(MM, r'(FindIter|FindRevIter)::.*'), (MM, r'(find_iter|rfind_iter)'), (MM, r'(Finder|FinderRev)::.*'),
-                                     (r'^x_memmem$', r'.*')] + SEL_SUB_F + SEL_SUB_R)],
+                                     (r'^x_memmem$', r'.*')] + SEL_SUB_F + SEL_SUB_R)]
+                + others([(MM, r'(FindIter|FindRevIter)::.*'), (MM, r'(find_iter|rfind_iter)'), (MM, r'(Finder|FinderRev)::.*'), (r'^x_memmem$', r'.*')] + SEL_SUB_F + SEL_SUB_R),
                 explanation='FindIter/FindRevIter next and size_hint are proved to realise the greedy sequence for every PrefilterState, on top '
                             'of the proved Searcher / SearcherRev contracts in the same unit',
                 assumptions=[A_GLUE, A_TW]),
     'C09': dict(explore=True, level='proof', kinds=FUNCTIONAL, kani=K_LEAF,
                 builds=[dict(build='main', modules=None, select=SEL_C01 + SEL_C02 + SEL_C07 + SEL_SUB_F + SEL_SUB_R + SEL_MM_F + SEL_MM_R)]
-                + others(SEL_C01 + SEL_C02 + SEL_C07 + SEL_PP_FIND + SEL_PP_PRE) + [dict(build='other32', modules=None, select=SEL_C01 + SEL_C02 + SEL_C07)],
+                + others(SEL_C01 + SEL_C02 + SEL_C07 + SEL_SUB_F + SEL_SUB_R + SEL_MM_F + SEL_MM_R),
                 explanation='corollary: SWAR (64- and 32-bit usize), SSE2, AVX2, NEON and wasm32 simd128 implementations, every dispatcher '
                             'target and every strategy of the meta searcher are proved against one functional specification with a unique answer',
                 assumptions=[A_DISP, A_LEAF, A_GLUE, 'cargo features (std/alloc/none) and compile-time +avx2 only change is_available() arms, which carry no '
-                                                     'postcondition on x86 (every outcome covered); is_available of NEON/simd128 is proved true under its cfg; the '
-                                                     'aarch64/wasm32 arms of Searcher::new are cfg-resolved away in the x86_64 unit (their packed-pair wrappers are proved separately)']),
+                                                     'postcondition on x86 (every outcome covered); is_available of NEON/simd128 is proved true under its cfg; each '
+                                                     'target\'s arm of Searcher::new is verified in that target\'s unit (main / aarch64 / wasm32 / other / other32)']),
     'C10': dict(explore=True, level='proof', kinds=FUNCTIONAL, kani=K_GLUE + K_PAIR + K_TWPRE,
-                builds=[dict(build='main', modules=MAIN_MODS_SUB + MAIN_MODS_MEMCHR, select=SEL_MM_F + SEL_SUB_F + [(PRE, r'.*')])],
+                builds=[dict(build='main', modules=MAIN_MODS_SUB + MAIN_MODS_MEMCHR, select=SEL_MM_F + SEL_SUB_F + [(PRE, r'.*')])] + others(SEL_MM_F + SEL_SUB_F + [(PRE, r'.*')]),
                 explanation='Searcher::new ensures built_for(needle) for EVERY PrefilterConfig and every ranker R (Pair::with_ranker is generic), '
                             'Searcher::find ensures is_leftmost for every PrefilterState; Two-Way with a prefilter is exact for every prefilter '
                             'built for the needle; so configuration, ranker and adaptive state cannot change a result',
                 assumptions=[A_GLUE, A_TW, A_CTOR]),
     'C11': dict(level='proof', kinds=FUNCTIONAL, kani=K_LEAF,
-                builds=[dict(build='main', modules=MAIN_MODS_SUB + MAIN_MODS_MEMCHR, select=SEL_PP_PRE + SEL_GLUE_P + SEL_C01)] + others(SEL_PP_PRE + SEL_C01)[:2],
+                builds=[dict(build='main', modules=MAIN_MODS_SUB + MAIN_MODS_MEMCHR, select=SEL_PP_PRE + SEL_GLUE_P + SEL_C01)] + others(SEL_PP_PRE + SEL_GLUE_P + SEL_C01),
                 assumptions=[A_LEAF, A_GLUE]),
     'C12': dict(explore=True, level='proof', kinds=FUNCTIONAL, kani=K_TW_F + K_TW_R + K_RK_F + K_RK_R + K_SO,
-                builds=[dict(build='main', modules=MAIN_MODS_SUB, select=SEL_RK_F + SEL_RK_R + SEL_PP_FIND + SEL_TW_F + SEL_TW_R + [(SO, r'.*'), (r'^x_so$', r'.*')])] + others(SEL_PP_FIND)[:2],
+                builds=[dict(build='main', modules=MAIN_MODS_SUB, select=SEL_RK_F + SEL_RK_R + SEL_PP_FIND + SEL_TW_F + SEL_TW_R + [(SO, r'.*'), (r'^x_so$', r'.*')])] + others(SEL_RK_F + SEL_RK_R + SEL_PP_FIND + SEL_TW_F + SEL_TW_R + [(SO, r'.*'), (r'^x_so$', r'.*')]),
                 explanation='every block is proved exact on its documented domain: packed-pair find, Rabin-Karp (search and constructors), '
                             'Two-Way forward/reverse (incl. completeness via the critical-factorisation theorem), Shift-Or (bit-parallel automaton)',
                 assumptions=[A_TW, A_CTOR, A_LEAF]),
@@ -172,24 +173,26 @@ PROPS = {
     # documented panic is specified relative to it)
     'C14': dict(level='proof', kinds=PANIC, non_mem=True, kani=[],
                 also=[('invariant', r'.*', r'(<=|>=|<|>)'), ('postcondition', r'min_haystack_len$', r'.*')],
-                builds=[dict(build='main', modules=None, select=[(r'.*', r'.*')])] + others([(r'.*', r'.*')]) + [dict(build='other32', modules=None, select=[(r'.*', r'.*')])],
+                builds=[dict(build='main', modules=None, select=[(r'.*', r'.*')])] + others([(r'.*', r'.*')]),
                 explanation='every debug_assert (X3), assert (X4, pinned to the documented precondition both ways), index, slice, subtraction, '
                             'shift, unwrap and loop termination in the extracted units is an obligation discharged by Verus',
                 assumptions=[A_CTOR, A_GLUE]),
     'C16': dict(explore=True, level='proof', kinds=FUNCTIONAL, kani=[],
                 builds=[dict(build='main', modules=MAIN_MODS_SUB + MAIN_MODS_MEMCHR,
-                             select=[(MM, r'(Finder|FinderRev|FindIter|FindRevIter)::.*'), (COW, r'.*')] + SEL_SUB_F + SEL_SUB_R)],
+                             select=[(MM, r'(Finder|FinderRev|FindIter|FindRevIter)::.*'), (COW, r'.*')] + SEL_SUB_F + SEL_SUB_R)]
+                + others([(MM, r'(Finder|FinderRev|FindIter|FindRevIter)::.*'), (COW, r'.*')] + SEL_SUB_F + SEL_SUB_R),
                 explanation='the result is determined by (needle, haystack) because Finder::find creates a fresh PrefilterState and Searcher::find '
                             'is proved exact for every state; as_ref/into_owned/needle contracts proved; derived Clone of the front-end types '
                             'carries no Verus spec except the assumed r == *self for Searcher/SearcherRev',
                 assumptions=[A_GLUE, 'Box<[u8]>::from(&[u8]) content spec assumed']),
     'C18': dict(level='proof', kinds=FUNCTIONAL + ('arithmetic',), kani=[],
-                builds=[dict(build='main', modules=['ext', 'vbase', 'arch::all'], select=[(EQ, r'.*'), (r'^ext$', r'.*'), (r'^vbase$', r'.*')])],
+                builds=[dict(build='main', modules=['ext', 'vbase', 'arch::all'], select=[(EQ, r'.*'), (r'^ext$', r'.*'), (r'^vbase$', r'.*')]),
+                        dict(build='other32', modules=['ext', 'vbase', 'arch::all'], select=[(EQ, r'.*'), (r'^ext$', r'.*'), (r'^vbase$', r'.*')])],
                 assumptions=[]),
     'C19': dict(explore=True, level='proof', kinds=FUNCTIONAL + ('assertion',), kani=K_PAIR,
                 builds=[dict(build='main', modules=MAIN_MODS_SUB, select=[(APP, r'(Pair::.*|Finder::(new|with_pair|pair))'),
                                                                           (GPP, r'Finder::(new|pair|min_haystack_len)'),
-                                                                          (XPP, r'Finder::(new|with_pair|with_pair_impl|pair|min_haystack_len)')])] + others([(XPP, r'Finder::(new|with_pair|with_pair_impl|pair|min_haystack_len)')])[:2],
+                                                                          (XPP, r'Finder::(new|with_pair|with_pair_impl|pair|min_haystack_len)')])] + others([(APP, r'(Pair::.*|Finder::(new|with_pair|pair))'), (GPP, r'Finder::(new|pair|min_haystack_len)'), (XPP, r'Finder::(new|with_pair|with_pair_impl|pair|min_haystack_len)')]),
                 explanation='Pair::with_ranker (for every ranker: generic R), Pair::new, with_indices, accessors and the finders\' '
                             'new/with_pair/pair/min_haystack_len are proved',
                 assumptions=[A_CTOR]),
